@@ -61,7 +61,8 @@ def engine (j : Json) : Engine :=
   let ctOf (c : String) : ColClass := colClass (strF cts c)
   match strF j "eng" with
   | "pa" => fun f rows => ArrowSem.doFilter f (ctOf f.col) rows
-  | "pd" => fun f rows => PandasSem.doFilter f (boolF j "strIndex") (ctOf f.col) rows
+  | "pd" => fun f rows => PandasSem.run f (ctOf f.col) rows
+  | "pd-prefix" => fun f rows => PandasSem.doFilter f true (ctOf f.col) rows   -- the variant before commit 15de8bc
   | _ => PyDict.doFilter
 
 def methodName : Gen.FilterMethod → String
